@@ -588,15 +588,29 @@ def oracle_dssr(case):
     p = os.path.join(WORK_DIR, f"c19_{os.getpid()}.json")
     with open(p, "w") as f:
         json.dump(doc, f)
+    via = None
     try:
         try:
             bi = parse_dssr_output(p, s3, model_arg)
+            if case.get("model") is None and case.get("structure_model") is not None:
+                # the same document through process_external_tool_output with no model requested, on a structure whose
+                # own model number is the drawn one (a conformer cut out of an ensemble keeps its number; frames are
+                # counted from 0): "no model requested" means the document's first model, whatever the structure's number
+                from rnapolis.adapter import ExternalTool, process_external_tool_output
+
+                s3m = gen3d.rebuild(s3, model=case["structure_model"])
+                via, _, _ = process_external_tool_output(s3m, p, ExternalTool.DSSR)
         except Exception as e:
             from rnaverif.runner import sut_location
             return [D(f"C19:dssr:raises:{type(e).__name__}@{sut_location(e.__traceback__)}", f"{type(e).__name__}: {str(e)[:160]}")]
     finally:
         os.remove(p)
     out = []
+    if via is not None:
+        vp = [(b.nt1.full_name, b.nt2.full_name, b.lw.value) for b in via.baseInteractions.basePairs]
+        vs = [(x.nt1.full_name, x.nt2.full_name) for x in via.baseInteractions.stackings]
+        if vp != exp_pairs or vs != exp_st:
+            out.append(D("C19:dssr:process-external-differs", f"structure of model {case['structure_model']}, no model requested: {len(vp)} pairs / {len(vs)} stackings, the document's first model has {len(exp_pairs)} / {len(exp_st)}"))
     got_pairs = [(b.nt1.full_name, b.nt2.full_name, b.lw.value) for b in bi.basePairs]
     got_st = [(s.nt1.full_name, s.nt2.full_name) for s in bi.stackings]
     case["_n"] = (len(exp_pairs), len(exp_st))
@@ -629,6 +643,7 @@ def st_dssr(files):
         model = draw(st.one_of(st.none(), st.integers(1, len(models)))) if multi else None
         return {"kind": "dssr", "file": draw(st.sampled_from(files)), "multimodel": multi, "models": models, "model": model,
                 "model_numbers": draw(st.sampled_from([None, None, [1, 3, 4], [0, 1, 2], [3, 1, 2], [2, 1], [5, 6, 7]])) if multi else None,
+                "structure_model": draw(st.sampled_from([None, 1, 2, 0, 7])),
                 "thin": draw(st.lists(st.integers(0, 500), max_size=6))}
 
     return build()
